@@ -219,6 +219,23 @@ pub fn run(ctx: &mut Ctx) -> Report {
 					},
 					Err(e) => s.rep.violate("C11:roundtrip", "rcgen cannot load its own serialize_der output", format!("{} {:?}", line, e)),
 				}
+				// ... and through the explicit-algorithm entry point, as the algorithm the key
+				// reports and, for RSA, as each of the three RSA algorithms alike
+				let exported = k.serialize_der();
+				if let Ok(pk) = rustls_pki_types::PrivateKeyDer::try_from(exported.clone()) {
+					let told: Vec<&'static SignatureAlgorithm> = if doc.kty == "rsa" { vec![&PKCS_RSA_SHA256, &PKCS_RSA_SHA384, &PKCS_RSA_SHA512] } else { vec![k.algorithm()] };
+					for a in told {
+						match std::panic::catch_unwind(std::panic::AssertUnwindSafe(|| KeyPair::from_der_and_sign_algo(&pk, a))) {
+							Ok(Ok(k3)) => {
+								if k3.public_key_raw() != k.public_key_raw() || k3.algorithm() != a {
+									s.rep.violate("C11:roundtrip-explicit", "serialize_der then from_der_and_sign_algo yields a different key or algorithm", format!("{} told={}", line, alg_name(a)));
+								}
+							},
+							Ok(Err(e)) => s.rep.violate(&format!("C11:roundtrip-explicit:{}:{}", doc.fmt, alg_name(a)), "a key rcgen loaded and exported does not load again under the algorithm it reports (for RSA: under each RSA algorithm)", format!("{} entry={} origin={} told={} error={:?}\nexported={}", line, name, doc.origin, alg_name(a), e, hex(&exported))),
+							Err(_) => s.rep.violate("C11:load-panics", "loading a key panics", format!("{} told={}", line, alg_name(a))),
+						}
+					}
+				}
 			}
 		}
 		if doc.fmt.starts_with("pkcs8") {
